@@ -119,6 +119,11 @@ Init == row \in Rows
 Next == UNCHANGED row
 Spec == Init /\ [][Next]_row
 
-Emit == PrintT(ToJson(row))
+\* The Ctx form called with a context that is already cancelled / past its deadline: like the go-redis
+\* command with that context, nothing is put on the wire and the context's error comes back
+\* ("ctx"); Ping reports it as false; the rows that are answered without asking Redis stay so.
+CtxErr(r) == IF r.w = <<>> THEN "" ELSE IF r.m = "Ping" THEN "false" ELSE "ctx"
+
+Emit == PrintT(ToJson([m |-> row.m, a |-> row.a, w |-> row.w, cerr |-> CtxErr(row), cw |-> <<>>]))
 
 =============================================================================
